@@ -17,7 +17,21 @@ use crate::render::{Feat, render_exec, render_ts};
 use crate::report::{Report, Violation, clip};
 use crate::schema_ix::{BUILTIN_SCALARS, builtin_directives, merge_extensions};
 
+fn has_quote_hazard(want: &Node) -> bool {
+    fn any(n: &Node, f: &dyn Fn(&Node) -> bool) -> bool {
+        f(n) || n.kids.iter().any(|k| any(k, f))
+    }
+    any(want, &|n| matches!(n.kind, "StringValue" | "Description" | "ImportPath") && n.tag != "block" && !n.label.contains('\n') && (n.label.contains('"') || n.label.contains('\\')))
+}
+
+const QUOTE_SIG: &str = "C16|document-has-single-line-string-with-quote-or-backslash";
+
 fn diff_sigs(prefix: &str, want: &Node, got: &Node) -> Vec<(String, String)> {
+    if has_quote_hazard(want) {
+        // print_string does not escape '"' and '\\' in single-line strings (known finding): the printed text of such a
+        // document can differ anywhere, so every disagreement in it is attributed to that one defect
+        return diff_nodes(want, got, false).into_iter().take(1).map(|d| (QUOTE_SIG.to_string(), d.detail)).collect();
+    }
     diff_nodes(want, got, false)
         .into_iter()
         .map(|d| {
@@ -27,8 +41,16 @@ fn diff_sigs(prefix: &str, want: &Node, got: &Node) -> Vec<(String, String)> {
                 // block-source: written as a block string in the source (nitrogql keeps those raw, C07's finding, and
                 // prints the raw text back); cooked-multi-line: a quoted string whose value contains a newline (printed
                 // as a block string); single-line: everything else
-                let class = if d.tag.starts_with("block") { "block-source" } else if d.want_label.contains('\n') { "cooked-multi-line" } else { "single-line" };
-                // known weak spots (block-source, cooked-multi-line) are one defect each whatever the route
+                let class = if d.tag.starts_with("block") {
+                    "block-source"
+                } else if d.want_label.contains('\n') {
+                    "cooked-multi-line"
+                } else if d.want_label.contains('"') || d.want_label.contains('\\') {
+                    "single-line-with-quote-or-backslash"
+                } else {
+                    "single-line"
+                };
+                // known weak spots are one defect each whatever the route
                 if class == "single-line" { (format!("{prefix}|string-value|{class}"), d.detail) } else { (format!("C16|string-value|{class}"), d.detail) }
             } else {
                 (format!("{prefix}|{}|{}", d.what, d.site()), d.detail)
@@ -59,7 +81,7 @@ pub fn check_roundtrip(grammar: &str, text: &str) -> Option<Vec<Violation>> {
                     match refparse::parse_exec(&printed) {
                         Err(e) => {
                             let cls = classify_unparsable(&want_node);
-                            out.push(mk(if cls.starts_with("has-") { format!("C16|printed-text-does-not-parse|{cls}") } else { format!("C16|roundtrip|op|{which}|printed-text-does-not-parse|{cls}") }, format!("{}:{} {} — printed {:?} from {:?}", e.line, e.col, e.msg, clip(&printed, 400), clip(text, 300))));
+                            out.push(mk(if cls == "quote-hazard" { QUOTE_SIG.to_string() } else if cls.starts_with("has-") { format!("C16|printed-text-does-not-parse|{cls}") } else { format!("C16|roundtrip|op|{which}|printed-text-does-not-parse|{cls}") }, format!("{}:{} {} — printed {:?} from {:?}", e.line, e.col, e.msg, clip(&printed, 400), clip(text, 300))));
                         }
                         Ok(got) => {
                             for (sig, detail) in diff_sigs(&format!("C16|roundtrip|op|{which}"), &want_node, &execdoc_node(&got)) {
@@ -80,7 +102,7 @@ pub fn check_roundtrip(grammar: &str, text: &str) -> Option<Vec<Violation>> {
                 match refparse::parse_ts(&plain) {
                     Err(e) => {
                         let cls = classify_unparsable(&want_node);
-                        out.push(mk(if cls.starts_with("has-") { format!("C16|printed-text-does-not-parse|{cls}") } else { format!("C16|roundtrip|ts|printed-text-does-not-parse|{cls}") }, format!("{}:{} {} — printed {:?} from {:?}", e.line, e.col, e.msg, clip(&plain, 400), clip(text, 300))));
+                        out.push(mk(if cls == "quote-hazard" { QUOTE_SIG.to_string() } else if cls.starts_with("has-") { format!("C16|printed-text-does-not-parse|{cls}") } else { format!("C16|roundtrip|ts|printed-text-does-not-parse|{cls}") }, format!("{}:{} {} — printed {:?} from {:?}", e.line, e.col, e.msg, clip(&plain, 400), clip(text, 300))));
                     }
                     Ok(got) => {
                         for (sig, detail) in diff_sigs("C16|roundtrip|ts", &want_node, &tsdoc_node(&got)) {
@@ -111,7 +133,16 @@ fn classify_unparsable(want: &Node) -> String {
     fn any(n: &Node, f: &dyn Fn(&Node) -> bool) -> bool {
         f(n) || n.kids.iter().any(|k| any(k, f))
     }
-    if any(want, &|n| matches!(n.kind, "StringValue" | "Description") && (n.label.contains('\n') || n.tag == "block")) { "has-block-or-multi-line-string".into() } else { "only-single-line-strings".into() }
+    if has_quote_hazard(want) {
+        return "quote-hazard".into();
+    }
+    if any(want, &|n| matches!(n.kind, "StringValue" | "Description") && (n.label.contains('\n') || n.tag == "block")) {
+        "has-block-or-multi-line-string".into()
+    } else if any(want, &|n| matches!(n.kind, "StringValue" | "Description" | "ImportPath") && (n.label.contains('"') || n.label.contains('\\'))) {
+        "has-string-with-quote-or-backslash".into()
+    } else {
+        "no-hazardous-string".into()
+    }
 }
 
 fn is_builtin_def(d: &TsDef) -> bool {
@@ -154,7 +185,7 @@ pub fn check_server_sdl(files: &[String], sdl: &str, route: &str, replay: &Value
         Ok(g) => g,
         Err(e) => {
             let cls = classify_unparsable(&tsdoc_node(&want));
-            out.push(mk(if cls.starts_with("has-") { format!("C16|printed-text-does-not-parse|{cls}") } else { format!("C16|server|{route}|sdl-does-not-parse|{cls}") }, format!("{}:{} {} — SDL {:?}", e.line, e.col, e.msg, clip(sdl, 600))));
+            out.push(mk(if cls == "quote-hazard" { QUOTE_SIG.to_string() } else if cls.starts_with("has-") { format!("C16|printed-text-does-not-parse|{cls}") } else { format!("C16|server|{route}|sdl-does-not-parse|{cls}") }, format!("{}:{} {} — SDL {:?}", e.line, e.col, e.msg, clip(sdl, 600))));
             return out;
         }
     };
@@ -165,9 +196,11 @@ pub fn check_server_sdl(files: &[String], sdl: &str, route: &str, replay: &Value
         let wn = tsdef_node(w);
         let cand = got_defs.iter().map(|g| tsdef_node(g)).find(|g| g.kind == wn.kind && g.label == wn.label);
         match cand {
-            None => out.push(mk(format!("C16|server|{route}|definition-missing|{}", wn.kind), format!("{} {:?} is not in the emitted SDL", wn.kind, wn.label))),
+            None => out.push(mk(if has_quote_hazard(&tsdoc_node(&want)) { QUOTE_SIG.to_string() } else { format!("C16|server|{route}|definition-missing|{}", wn.kind) }, format!("{} {:?} is not in the emitted SDL", wn.kind, wn.label))),
             Some(g) => {
-                for (sig, detail) in diff_sigs(&format!("C16|server|{route}"), &wn, &g) {
+                let whole = tsdoc_node(&want);
+                let pairs = if has_quote_hazard(&whole) { diff_nodes(&wn, &g, false).into_iter().take(1).map(|d| (QUOTE_SIG.to_string(), d.detail)).collect() } else { diff_sigs(&format!("C16|server|{route}"), &wn, &g) };
+                for (sig, detail) in pairs {
                     out.push(mk(sig, format!("{detail} — in {} {:?}", wn.kind, wn.label)));
                 }
             }
@@ -181,7 +214,7 @@ pub fn check_server_sdl(files: &[String], sdl: &str, route: &str, replay: &Value
             wn.kind == gn.kind && wn.label == gn.label
         }) && !is_builtin_def(g)
         {
-            out.push(mk(format!("C16|server|{route}|definition-invented|{}", gn.kind), format!("{} {:?} is in the emitted SDL but not in the schema", gn.kind, gn.label)));
+            out.push(mk(if has_quote_hazard(&tsdoc_node(&want)) { QUOTE_SIG.to_string() } else { format!("C16|server|{route}|definition-invented|{}", gn.kind) }, format!("{} {:?} is in the emitted SDL but not in the schema", gn.kind, gn.label)));
         }
     }
     out
@@ -213,7 +246,7 @@ pub fn check_server_project(ctx: &Ctx, case: u64, schema_files: &[String], via_c
     } else {
         let sf: Vec<(String, String)> = schema_files.iter().enumerate().map(|(i, t)| (format!("/proj/schema/s{i}.graphql"), t.clone())).collect();
         let of = vec![("/proj/op.graphql".to_string(), OP_FOR_SCHEMA.to_string())];
-        let r = crate::pipeline::run_project(&crate::pipeline::ProjectInput { schema_files: &sf, op_files: &of, config: "schema: x\n", generate: false });
+        let r = crate::pipeline::run_project(&crate::pipeline::ProjectInput { schema_files: &sf, op_files: &of, config: "schema: x\n", generate: false, check_only: false });
         if let Some(o) = &r.outputs {
             out.extend(check_server_sdl(schema_files, &o.server_graphql, "lib", &replay));
         }
@@ -226,6 +259,7 @@ pub fn run(ctx: &Ctx, rep: &mut Report) {
     let n = ctx.budget(40_000, 1_500_000);
     for case in 0..n {
         let mut rng = ctx.rng("roundtrip", case);
+        crate::gen_syntax::set_allow_quotes(rng.chance(1, 8));
         let hostile = rng.chance(2, 3);
         let (grammar, text, node) = if rng.coin() {
             let d = gen_exec_doc(&mut rng, &ExecOpts { imports: true, shorthand: false, hostile });
@@ -253,6 +287,7 @@ pub fn run(ctx: &Ctx, rep: &mut Report) {
     let cli_every = 40;
     for case in 0..n {
         let mut rng = ctx.rng("server", case);
+        crate::gen_syntax::set_allow_quotes(rng.chance(1, 8));
         let mut so = SchemaOpts::default_for(&mut rng);
         so.descriptions = true;
         so.hostile_text = rng.chance(2, 3);
